@@ -127,3 +127,23 @@ func init() {
 		}
 	}
 }
+
+func init() {
+	debugCmds["wlay"] = func(args []string) {
+		p, err := loadProg("/repo", "")
+		if err != nil {
+			fmt.Println(err)
+			os.Exit(2)
+		}
+		for _, pk := range p.ScopePkgs() {
+			for _, fn := range pkgFunctions(p, pk.PkgPath) {
+				if len(args) == 0 || !strings.Contains(funcName(fn), args[0]) {
+					continue
+				}
+				w := newWEval(p, fn)
+				fmt.Println("==", funcName(fn))
+				fmt.Println("  ", w.evalFunc().String())
+			}
+		}
+	}
+}
